@@ -63,8 +63,9 @@ def default_key(case, res) -> str:
 
 def compare(mod, model, cases, results):
     """returns list of (index, model_out) where model and python differ; also model outputs"""
-    idx = [i for i, c in enumerate(cases) if mod.request(c) is not None]
-    lines = [mod.request(cases[i]) for i in idx]
+    reqs = [mod.request(c) for c in cases]
+    idx = [i for i, r in enumerate(reqs) if r is not None]
+    lines = [reqs[i] for i in idx]
     replies = model.ask_many(lines)
     dis = []
     for i, rep in zip(idx, replies):
